@@ -43,7 +43,8 @@ UNIVERSE = {
         {'name': 'f', 'schema': 's', 'content': 0},
     ],
     'G': [{'name': 'g'}, {'name': 'g'}, {'name': 'h'}],
-    'N': 2, 'P': 2,
+    # sticky notes: N[1] is a look-alike of N[0] (same name, same text): containment goes by the object, not by its looks
+    'N': 3, 'P': 2,
 }
 RENAMES = ['a', 'b', 'zz']
 SCHEMAS = ['public', 's']
@@ -87,7 +88,7 @@ class World:
                                     on_delete=dele, inline=r.get('inline', False)))
         self.E = [Enum(e['name'], [EnumItem(f"i{e['content']}")], schema=e['schema']) for e in u['E']]
         self.G = [TableGroup(g['name'], []) for g in u['G']]
-        self.N = [StickyNote(f'n{i}', 'text') for i in range(u['N'])]
+        self.N = [StickyNote(['n0', 'n0', 'n1'][i] if i < 3 else f'n{i}', 'text') for i in range(u['N'])]
         self.P = [Project(f'p{i}') for i in range(u['P'])]
         self.other = [Column('zz', 'int'), 'a string', 42]
         self.exp = {'table': [], 'ref': [], 'enum': [], 'group': [], 'sticky': [], 'project': None}
@@ -207,6 +208,15 @@ def oracle_step(w, op, outcome, ret, before):
                               'schema-qualified names, kind, name, actions)', None))
         except Exception:  # noqa: BLE001
             pass
+    if kind == 'sticky' and op[0] in ('add', 'delete') and not outcome.startswith('raised'):
+        # sticky notes have no rule of their own: one is refused only when that very object is already contained, and only a
+        # contained one can be deleted (a look-alike with the same name and text is another note)
+        obj = w.N[op[2]]
+        was_in = any(obj is w.N[i] for i in before['sticky'] if i is not None)
+        if op[0] == 'add' and outcome == 'rejected' and not was_in:
+            fails.append(('a sticky note that is not contained is refused (a look-alike is contained)', None))
+        if op[0] == 'delete' and outcome == 'ok' and not was_in:
+            fails.append(('deleting a sticky note that is absent is accepted (a contained look-alike is removed instead)', None))
     # track expectations from outcomes
     if outcome == 'ok' and op[0] == 'add' and kind != 'other':
         obj = w.objs(kind)[op[2]]
@@ -297,7 +307,7 @@ CORE_OPS = [['add', 'table', 0], ['add', 'table', 1], ['add', 'table', 2], ['add
             ['add', 'ref', 0], ['add', 'ref', 1], ['add', 'ref', 3], ['add', 'ref', 4], ['add', 'ref', 5], ['delete', 'ref', 1],
             ['add', 'enum', 0], ['add', 'enum', 1], ['add', 'enum', 2], ['delete', 'enum', 1],
             ['add', 'group', 0], ['add', 'group', 1], ['delete', 'group', 0],
-            ['add', 'sticky', 0], ['delete', 'sticky', 0], ['add', 'project', 0], ['add', 'project', 1], ['deleteProject'],
+            ['add', 'sticky', 0], ['delete', 'sticky', 0], ['add', 'sticky', 1], ['delete', 'sticky', 1], ['add', 'project', 0], ['add', 'project', 1], ['deleteProject'],
             ['add', 'other', 0], ['delete', 'other', 0],
             ['setName', 0, 'b'], ['setName', 2, 'zz'], ['setAlias', 2, 'y'], ['setSchema', 0, 's'], ['setAlias', 4, None]]
 
@@ -324,7 +334,7 @@ def gen_histories(ctx):
             op = ops[rng.randrange(len(ops))]
             if j < 6 and rng.random() < 0.7:
                 op = ['add', rng.choice(['table', 'table', 'ref', 'enum', 'group', 'sticky', 'project']), 0]
-                op[2] = rng.randrange({'table': 6, 'ref': 6, 'enum': 4, 'group': 3, 'sticky': 2, 'project': 2}[op[1]])
+                op[2] = rng.randrange({'table': 6, 'ref': 6, 'enum': 4, 'group': 3, 'sticky': 3, 'project': 2}[op[1]])
             h.append(op)
         hs.append(h)
     return hs
@@ -600,9 +610,9 @@ def main(tier, seed):
         if drv is not None:
             drv.close()
     return ctx.finish(
-        rule='universe of 6 tables / 6 references / 4 enums / 3 groups / 2 sticky notes / 2 projects built to clash (same full '
+        rule='universe of 6 tables / 6 references / 4 enums / 3 groups / 3 sticky notes (two look-alikes) / 2 projects built to clash (same full '
              'name, structurally equal twins, alias equal to another key, identical reference inline and standalone, reference '
-             'with no table, enum twins); histories: all pairs (quick) / triples (thorough) over 34 core operations, random '
+             'with no table, enum twins); histories: all pairs (quick) / triples (thorough) over 36 core operations, random '
              'triples, random histories of 4-60 operations incl. renames; canonical state + outcome compared after every step. '
              'Table level: random histories of 30 column/index operations. Non-trivial: at least one successful and one '
              'rejected operation; distinct by history hash',
